@@ -64,7 +64,7 @@ theorem parse_encode_leaf (O : Oracle) (o : Opts) (ho : o.strict = true) (it : I
     (fuel depth : Nat) (st : St) (ws : Bytes) (c : UInt8) (r : Bytes)
     (hws : AllWS ws) (hcw : isWS c = false) (hc47 : c ≠ 47)
     (h : st.data = encodeLeaf O o it ++ (ws ++ c :: r)) :
-    ∃ st', parseItem O true (fuel + 1) depth st = .ok (canonLeaf it, st') ∧ st'.data = c :: r :=
+    ∃ st', parseItem O true (fuel + 1) depth st = .ok (canonLeaf O it, st') ∧ st'.data = c :: r :=
   let ⟨st', h1, h2, _⟩ := parseItem_leaf O o ho it hok fuel depth st ws c r hws hcw hc47 h
   ⟨st', h1, h2⟩
 
@@ -79,7 +79,7 @@ theorem parse_encode_item (O : Oracle) (o : Opts) (ho : o.strict = true) (hind :
     (hfuel : 2 * nodes it ≤ fuel) (hdepth : depth + Secs2.depth it ≤ maxListDepth + 1)
     (hws : AllWS ws) (hcw : isWS c = false) (hc47 : c ≠ 47)
     (h : st.data = coreItem O o level it ++ (ws ++ c :: r)) :
-    ∃ st', parseItem O true fuel depth st = .ok (canon it, st') ∧ st'.data = c :: r :=
+    ∃ st', parseItem O true fuel depth st = .ok (canon O it, st') ∧ st'.data = c :: r :=
   let ⟨st', h1, h2, _⟩ := parseItem_core O o ho hind it hok level fuel depth st ws c r hfuel hdepth hws hcw hc47 h
   ⟨st', h1, h2⟩
 
@@ -99,26 +99,43 @@ theorem encodeItem_is_indent_core (O : Oracle) (o : Opts) (level : Nat) (it : It
     stays empty). -/
 theorem parse_encode (O : Oracle) (o : Opts) (ho : o.strict = true) (hind : AllWS o.indent) (m : Msg)
     (hm : OKMsg O m) :
-    ∃ a d, parseAll O true (encodeMsg O o m) = ⟨.ok [⟨m.s, m.f, m.w, canonBody m.body⟩], a, d⟩ :=
+    ∃ a d, parseAll O true (encodeMsg O o m) = ⟨.ok [⟨m.s, m.f, m.w, canonBody O m.body⟩], a, d⟩ :=
   parseAll_encodeMsg O o ho hind m hm
 
 /-- The same through `Parser.ParseMessage`'s core (`parseMsg`): the message is read and the whole
     text is consumed. -/
 theorem parseMsg_encode (O : Oracle) (o : Opts) (ho : o.strict = true) (hind : AllWS o.indent) (m : Msg)
     (hm : OKMsg O m) (st : St) (h : st.data = encodeMsg O o m) :
-    ∃ st', parseMsg O true false st = .ok (some ⟨m.s, m.f, m.w, canonBody m.body⟩, st') ∧ st'.data = [] :=
+    ∃ st', parseMsg O true false st = .ok (some ⟨m.s, m.f, m.w, canonBody O m.body⟩, st') ∧ st'.data = [] :=
   parseMsg_encodeMsg O o ho hind m hm st h
+
+/-- **The parsed message equals the original as the property states it**: same stream, function and
+    W-bit, and a body equal up to NaN payload bits and the localized-string header (`simItem`: every
+    other type, size, element value and the nesting are identical; a NaN element comes back as a NaN). -/
+theorem parse_encode_similar (O : Oracle) (o : Opts) (ho : o.strict = true) (hind : AllWS o.indent) (m : Msg)
+    (hm : OKMsg O m) :
+    ∃ a d body', parseAll O true (encodeMsg O o m) = ⟨.ok [⟨m.s, m.f, m.w, body'⟩], a, d⟩ ∧
+      (m.body = .empty → body' = .empty) ∧ (m.body ≠ .empty → simItem m.body body' = true) := by
+  obtain ⟨a, d, h⟩ := parseAll_encodeMsg O o ho hind m hm
+  refine ⟨a, d, canonBody O m.body, h, ?_, ?_⟩
+  · intro he; simp [he, canonBody]
+  · intro hne
+    rcases hm.2.2.2 with he | ⟨hok, _, _⟩
+    · exact absurd he hne
+    · have : canonBody O m.body = canon O m.body := by
+        cases hb : m.body <;> simp [canonBody]
+        exact absurd hb hne
+      rw [this]; exact sim_canon O m.body hok
 
 /-- **Accepted texts re-encode stably.** Every message the strict parser returns for any text `t`,
     if it lies in the grammar (the restriction the property puts on JIS-8 / localized text), re-encodes
-    under any options and re-parses to one message equal to it up to the canonical form — and the
-    canonical form is a fixed point, so a second round trip changes nothing. -/
+    under any options and re-parses to one message equal to it in the property's sense (`simItem`). -/
 theorem reencode_stable (O : Oracle) (t : Bytes) (ms : List Msg) (a d : Nat)
     (_hparse : parseAll O true t = ⟨.ok ms, a, d⟩)
     (o : Opts) (ho : o.strict = true) (hind : AllWS o.indent) (m : Msg) (_hmem : m ∈ ms) (hm : OKMsg O m) :
-    (∃ a' d', parseAll O true (encodeMsg O o m) = ⟨.ok [⟨m.s, m.f, m.w, canonBody m.body⟩], a', d'⟩) ∧
-    canon (canon m.body) = canon m.body :=
-  ⟨parseAll_encodeMsg O o ho hind m hm, canon_idem m.body⟩
+    ∃ a' d' body', parseAll O true (encodeMsg O o m) = ⟨.ok [⟨m.s, m.f, m.w, body'⟩], a', d'⟩ ∧
+      (m.body = .empty → body' = .empty) ∧ (m.body ≠ .empty → simItem m.body body' = true) :=
+  parse_encode_similar O o ho hind m hm
 
 /-- Printable ASCII text without `"` and `\` is left unchanged by `strconv.Quote`, so a localized
     string of such text without `>` is in the grammar outright (no oracle law needed). -/
@@ -172,9 +189,9 @@ def sampleItem : Item :=
     localized text is in the grammar (with the decimal-bits float oracle). -/
 example : OKItem sampleOracle sampleItem := by
   have hf : ∀ v ∈ [1069547520], Tok (sampleOracle.fmtF .f4 v) ∧
-      sampleOracle.parseF .f4 (sampleOracle.fmtF .f4 v) = some v := by
+      ∃ v', sampleOracle.parseF .f4 (sampleOracle.fmtF .f4 v) = some v' ∧ floatBitsEq .f4 v v' = true := by
     intro v _
-    exact ⟨tok_showDec v, by simp [sampleOracle, decVal_showDec]⟩
+    exact ⟨tok_showDec v, v, by simp [sampleOracle, decVal_showDec], by simp [floatBitsEq]⟩
   have hq : LeafOK sampleOracle (.lstr 7 [97, 98]) := lstr_printable_in_grammar sampleOracle 7 [97, 98] (by decide)
   simp only [sampleItem, OKItem, OKItems, LeafOK, maxInt32, List.length_cons, List.length_nil, and_true]
   repeat' apply And.intro
@@ -184,9 +201,9 @@ example : OKItem sampleOracle sampleItem := by
 example : OKMsg sampleOracle ⟨127, 255, true, sampleItem⟩ := by
   refine ⟨by decide, by decide, by decide, Or.inr ⟨?_, by decide, by decide⟩⟩
   have hf : ∀ v ∈ [1069547520], Tok (sampleOracle.fmtF .f4 v) ∧
-      sampleOracle.parseF .f4 (sampleOracle.fmtF .f4 v) = some v := by
+      ∃ v', sampleOracle.parseF .f4 (sampleOracle.fmtF .f4 v) = some v' ∧ floatBitsEq .f4 v v' = true := by
     intro v _
-    exact ⟨tok_showDec v, by simp [sampleOracle, decVal_showDec]⟩
+    exact ⟨tok_showDec v, v, by simp [sampleOracle, decVal_showDec], by simp [floatBitsEq]⟩
   have hq : LeafOK sampleOracle (.lstr 7 [97, 98]) := lstr_printable_in_grammar sampleOracle 7 [97, 98] (by decide)
   simp only [sampleItem, OKItem, OKItems, LeafOK, maxInt32, List.length_cons, List.length_nil, and_true]
   repeat' apply And.intro
